@@ -536,3 +536,273 @@ Proof.
   exists cs. split; [reflexivity|]. split; [reflexivity|].
   eapply headerlist_cl; eassumption.
 Qed.
+
+(* ------------------------------------------------------------------ *)
+(* nothing escapes; crashes become a 500                               *)
+(* ------------------------------------------------------------------ *)
+
+Lemma esc1_ombott_scalar c : scalarb c = true -> forallb scalarb (esc1_ombott c) = true.
+Proof.
+  intros H. unfold esc1_ombott.
+  destruct (N.eqb c 38); [reflexivity|]. destruct (N.eqb c 60); [reflexivity|].
+  destruct (N.eqb c 62); [reflexivity|]. destruct (N.eqb c 34); [reflexivity|].
+  destruct (N.eqb c 39); [reflexivity|]. simpl. now rewrite H.
+Qed.
+
+Lemma critical_page_encodable path :
+  Forall scalar path -> exists b, utf8_encode (critical_page path) = Some b.
+Proof.
+  intros H. unfold utf8_encode.
+  assert (E : forallb scalarb (critical_page path) = true).
+  { unfold critical_page. rewrite !forallb_app. rewrite html_escape_ombott_pointwise, forallb_flat_map.
+    replace (forallb (fun a => forallb scalarb (esc1_ombott a)) path) with true; [reflexivity|].
+    symmetry. apply forallb_forall. intros c Hc. apply esc1_ombott_scalar. apply scalarb_spec.
+    rewrite Forall_forall in H. now apply H. }
+  rewrite E. eauto.
+Qed.
+
+Lemma never_escapes env eh p :
+  Forall scalar (e_path env) \/ e_head env = true -> forall ev, wsgi env eh p <> WsEscaped ev.
+Proof.
+  intros Hs ev He.
+  assert (Hc : forall A st, catchall env A st <> WsEscaped ev).
+  { intros A st E. destruct (catchall_cases env A st) as [[_ E']|[[_ [b [_ E']]]|[Hh [Hn E']]]]; try congruence.
+    destruct Hs as [Hs|Hs]; [|congruence].
+    destruct (critical_page_encodable _ Hs) as [b Hb]. congruence. }
+  destruct (wsgi_cases env eh p) as [evH st0 o w0 st wrote hl Hh Hc' Hl | evH st0 o Hh Hc' | evH st0 o w0 st wrote Hh Hc' Hl].
+  - discriminate.
+  - exact (Hc _ _ He).
+  - exact (Hc _ _ He).
+Qed.
+
+Definition is500 (st : rstate) : Prop := s_code st = 500%Z /\ s_line st = l500.
+
+Section Crash.
+Variable env : cenv.
+Variable eh : Z -> option (resp -> ehres).
+Hypothesis eh500 : eh 500%Z = None.
+
+Lemma default_eh_status r st pg st' :
+  default_eh env r st = Some (pg, st') -> s_code st' = s_code st /\ s_line st' = s_line st.
+Proof.
+  unfold default_eh. destruct (e_json env).
+  - destruct (r_bjson r); [|discriminate]. intros H; inversion H; subst. split; reflexivity.
+  - destruct (html_page r (e_url env)); [|discriminate]. intros H; inversion H; subst. split; reflexivity.
+Qed.
+
+Lemma step_body_str_500 s st : is500 st ->
+  match step_body env eh (OStr s) st with
+  | SDone _ st' _ => is500 st'
+  | SCont _ _ => False
+  | SRaise => True
+  end.
+Proof.
+  intros H. unfold step_body. destruct (falsy (OStr s)); [exact H|].
+  destruct (encode st s); [exact H|exact I].
+Qed.
+
+Lemma step_guard_500 cnt o st : 1000 < cnt ->
+  match step env eh cnt o st with
+  | SDone _ st' _ => is500 st'
+  | SCont _ _ => False
+  | SRaise => True
+  end.
+Proof.
+  intros Hc. unfold step. destruct (Nat.ltb_spec 1000 cnt) as [_|?]; [|lia].
+  destruct (default_eh env err_too_many (apply err_too_many st)) as [[pg st2]|] eqn:Hd; [|exact I].
+  apply step_body_str_500. destruct (default_eh_status _ _ _ _ Hd) as [A B].
+  split; [rewrite A|rewrite B]; reflexivity.
+Qed.
+
+Definition done500 (c : cast_res) : Prop :=
+  match c with CDone _ st' _ => is500 st' | _ => True end.
+
+Lemma cast_str_500 fuel cnt s st : is500 st -> done500 (cast env eh fuel cnt (OStr s) st).
+Proof.
+  intros H. destruct fuel as [|f]; cbn [cast]; [exact I|].
+  destruct (Nat.ltb_spec 1000 cnt) as [Hc|Hc].
+  - pose proof (step_guard_500 cnt (OStr s) st Hc) as G.
+    destruct (step env eh cnt (OStr s) st); [contradiction|exact G|exact I].
+  - unfold step. destruct (Nat.ltb_spec 1000 cnt) as [?|_]; [lia|].
+    pose proof (step_body_str_500 s st H) as G.
+    destruct (step_body env eh (OStr s) st); [contradiction|exact G|exact I].
+Qed.
+
+(* an HTTPError with status 500 and no custom 500 handler ends as a 500 response (or in the catch-all) *)
+Lemma cast_err_500 fuel cnt r st :
+  r_code r = 500%Z -> r_line r = l500 -> done500 (cast env eh fuel cnt (OHttp true r) st).
+Proof.
+  intros Hc Hl. destruct fuel as [|f]; cbn [cast]; [exact I|].
+  destruct (Nat.ltb_spec 1000 cnt) as [Hg|Hg].
+  - pose proof (step_guard_500 cnt (OHttp true r) st Hg) as G.
+    destruct (step env eh cnt (OHttp true r) st); [contradiction|exact G|exact I].
+  - unfold step. destruct (Nat.ltb_spec 1000 cnt) as [?|_]; [lia|].
+    unfold step_body. cbn [falsy]. rewrite Hc, eh500.
+    destruct (default_eh env r (apply r st)) as [[pg st2]|] eqn:Hd; [|exact I].
+    apply cast_str_500. destruct (default_eh_status _ _ _ _ Hd) as [A B].
+    split; [rewrite A|rewrite B]; destruct r; simpl in *; assumption.
+Qed.
+
+(* falsy items, then next() raises *)
+Fixpoint first_next_raises (l : list item) : Prop :=
+  match l with
+  | IYield o :: t => falsy o = true /\ first_next_raises t
+  | IRaiseExc _ :: _ => True
+  | _ => False
+  end.
+
+(* iter(out) or the first next() with a non-empty result raises an ordinary exception *)
+Definition crashes_at_first_next (o : out) : Prop :=
+  match o with
+  | OOther _ _ => True
+  | OIter _ _ items _ => first_next_raises items
+  | _ => False
+  end.
+
+Lemma peek_raises items close st :
+  first_next_raises items -> exists j, peek items close st = SCont (OHttp true (err_unhandled j)) st.
+Proof.
+  induction items as [|i t IH]; simpl; [contradiction|].
+  destruct i as [o|e r|j]; try contradiction.
+  - intros [Hf Ht]. rewrite Hf. now apply IH.
+  - intros _. eauto.
+Qed.
+
+Lemma cast_crash_500 fuel o st : crashes_at_first_next o -> done500 (cast env eh fuel 1 o st).
+Proof.
+  intros H. destruct fuel as [|f]; cbn [cast]; [exact I|].
+  unfold step. cbn [Nat.ltb Nat.leb]. unfold step_body.
+  destruct o as [|s|b|e r|id hc hi c ty|id hc its ty|ty ej]; try contradiction.
+  - cbn [falsy]. destruct (peek_raises its (if hc then Some id else None) st H) as [j ->].
+    now apply cast_err_500.
+  - cbn [falsy]. now apply cast_err_500.
+Qed.
+
+Lemma done500_lines p evH st0 o :
+  handle p = (evH, st0, o) -> done500 (cast env eh cast_fuel 1 o st0) ->
+  forall line hl x, In (EvStart line hl x) (all_events (wsgi env eh p)) -> line = l500 \/ line = l_catchall.
+Proof.
+  intros Hh Hd line hl x Hin.
+  destruct (start_origin env eh p line hl x Hin) as [[_ [-> _]]|[_ [evH' [st0' [o' [w0 [st [wrote [Hh' [Hc [_ [-> _]]]]]]]]]]]].
+  - now right.
+  - rewrite Hh in Hh'. inversion Hh'; subst. rewrite Hc in Hd. left. apply Hd.
+Qed.
+
+Lemma crash_in_handle_500 p evH st0 j :
+  handle p = (evH, st0, OHttp true (err_handle500 j)) ->
+  forall line hl x, In (EvStart line hl x) (all_events (wsgi env eh p)) -> line = l500 \/ line = l_catchall.
+Proof. intros Hh. eapply done500_lines; [exact Hh|]. now apply cast_err_500. Qed.
+
+Lemma crash_at_first_next_500 p evH st0 o :
+  handle p = (evH, st0, o) -> crashes_at_first_next o ->
+  forall line hl x, In (EvStart line hl x) (all_events (wsgi env eh p)) -> line = l500 \/ line = l_catchall.
+Proof. intros Hh Hc. eapply done500_lines; [exact Hh|]. now apply cast_crash_500. Qed.
+
+End Crash.
+
+(* ------------------------------------------------------------------ *)
+(* hooks                                                               *)
+(* ------------------------------------------------------------------ *)
+
+Definition fails (h : hprog) : bool := match h_res h with HRet _ => false | _ => true end.
+(* how many hooks of a list (in call order) get called: up to and including the first failing one *)
+Fixpoint ran (hs : list hprog) : nat :=
+  match hs with [] => 0 | h :: t => if fails h then 1 else S (ran t) end.
+Definition all_ok (hs : list hprog) : bool := forallb (fun h => negb (fails h)) hs.
+
+Lemma run_hooks_trace tag : forall idx hs st ev st' x,
+  length idx = length hs ->
+  run_hooks tag (combine idx hs) st = (ev, st', x) ->
+  ev = map tag (firstn (ran hs) idx) /\ (x = None <-> all_ok hs = true).
+Proof.
+  induction idx as [|i idx IH]; intros [|h hs] st ev st' x Hlen H; simpl in Hlen; try discriminate.
+  - simpl in H. inversion H; subst. split; [reflexivity|]. split; reflexivity.
+  - cbn [combine run_hooks] in H. unfold run_prog in H. unfold all_ok, fails. cbn [ran forallb]. unfold fails.
+    destruct (h_res h) as [o|e r|j].
+    + destruct (run_hooks tag (combine idx hs) (apply_muts (h_muts h) st)) as [[ev2 st2] x2] eqn:Hr.
+      inversion H; subst. destruct (IH hs _ _ _ _ (eq_add_S _ _ Hlen) Hr) as [-> Hx].
+      split; [reflexivity|exact Hx].
+    + inversion H; subst. split; [reflexivity|]. split; discriminate.
+    + inversion H; subst. split; [reflexivity|]. split; discriminate.
+Qed.
+
+Lemma combine_app' {A B} (a : list A) (c : list B) b d :
+  length a = length c -> combine (a ++ b) (c ++ d) = combine a c ++ combine b d.
+Proof.
+  revert c. induction a as [|x a IH]; intros [|y c] H; simpl in H; try discriminate; [reflexivity|].
+  simpl. f_equal. apply IH. now inversion H.
+Qed.
+
+Lemma rev_indexed {A} (l : list A) : rev (indexed l) = combine (rev (seq 0 (length l))) (rev l).
+Proof.
+  unfold indexed. generalize 0 as k. induction l as [|a t IH]; intros k; [reflexivity|].
+  cbn [length seq combine rev]. rewrite IH.
+  rewrite combine_app' by (rewrite !rev_length, seq_length; reflexivity). reflexivity.
+Qed.
+
+Definition mid_event (e : event) : bool :=
+  match e with EvRouteHook _ | EvHandler => true | _ => false end.
+Definition is_handler (e : event) : bool := match e with EvHandler => true | _ => false end.
+
+Lemma route_and_call_shape rt st ev st' r :
+  route_and_call rt st = (ev, st', r) ->
+  exists evR, ev = EvRouted :: evR /\ forallb mid_event evR = true /\ count is_handler evR <= 1.
+Proof.
+  unfold route_and_call. destruct rt as [[h|]|allow|rh h].
+  - destruct (run_prog h st) as [st1 r1]. intros H; inversion H; subst.
+    exists [EvHandler]. repeat split. unfold count; simpl; lia.
+  - intros H; inversion H; subst. exists []. repeat split. unfold count; simpl; lia.
+  - intros H; inversion H; subst. exists []. repeat split. unfold count; simpl; lia.
+  - destruct (run_hooks EvRouteHook (indexed rh) st) as [[ev1 st1] x] eqn:Hr.
+    destruct (run_hooks_events _ _ _ _ _ _ Hr) as [idx ->].
+    assert (Hm : forallb mid_event (map EvRouteHook idx) = true) by now apply forallb_map_tag.
+    assert (Hn : count is_handler (map EvRouteHook idx) = 0).
+    { apply count_zero. intros e He. apply in_map_iff in He. destruct He as [i [<- _]]. reflexivity. }
+    destruct x as [x|].
+    + intros H; inversion H; subst. exists (map EvRouteHook idx). repeat split; [exact Hm|lia].
+    + destruct (run_prog h st1) as [st2 r2]. intros H; inversion H; subst.
+      exists (map EvRouteHook idx ++ [EvHandler]). split; [reflexivity|]. split.
+      * rewrite forallb_app, Hm. reflexivity.
+      * rewrite count_app, Hn. unfold count; simpl; lia.
+Qed.
+
+(* Before hooks: in registration order, once each, up to and including the first
+   failing one, all before routing; routing and the handler only if none failed.
+   After hooks: in reverse registration order, once each, up to and including the
+   first failing one (all of them when none fails), after everything else —
+   whatever happened before (404, 405, a failing before hook, a crash). *)
+Lemma hooks_lifecycle p :
+  exists evM,
+    fst (fst (handle p))
+    = map EvHookB (firstn (ran (p_before p)) (seq 0 (length (p_before p))))
+      ++ evM
+      ++ map EvHookA (firstn (ran (rev (p_after p))) (rev (seq 0 (length (p_after p)))))
+    /\ (all_ok (p_before p) = false -> evM = [])
+    /\ (all_ok (p_before p) = true ->
+         exists evR, evM = EvRouted :: evR /\ forallb mid_event evR = true /\ count is_handler evR <= 1).
+Proof.
+  unfold handle.
+  destruct (run_hooks EvHookB (indexed (p_before p)) st_init) as [[evB st1] xB] eqn:HB.
+  destruct (match xB with Some x => ([], st1, inr x) | None => route_and_call (p_routing p) st1 end)
+    as [[evM st2] resM] eqn:HM.
+  destruct (run_hooks EvHookA (rev (indexed (p_after p))) st2) as [[evA st3] xA] eqn:HA.
+  cbn [fst].
+  unfold indexed in HB.
+  destruct (run_hooks_trace EvHookB _ _ _ _ _ _ (seq_length _ _) HB) as [-> HxB].
+  rewrite rev_indexed in HA.
+  assert (Hlen : length (rev (seq 0 (length (p_after p)))) = length (rev (p_after p)))
+    by (rewrite !rev_length, seq_length; reflexivity).
+  destruct (run_hooks_trace EvHookA _ _ _ _ _ _ Hlen HA) as [-> _].
+  exists evM. split; [reflexivity|]. split.
+  - intros Hf. destruct xB as [x|]; [now inversion HM|].
+    destruct HxB as [HxB _]. rewrite (HxB eq_refl) in Hf. discriminate.
+  - intros Ht. destruct xB as [x|].
+    + destruct HxB as [_ HxB]. specialize (HxB Ht). discriminate.
+    + eapply route_and_call_shape; eassumption.
+Qed.
+
+Lemma ran_all_ok hs : all_ok hs = true -> ran hs = length hs.
+Proof.
+  unfold all_ok. induction hs as [|h t IH]; simpl; [reflexivity|].
+  destruct (fails h); simpl; [discriminate|]. intros H. now rewrite IH.
+Qed.
